@@ -268,7 +268,10 @@ func (n *c16net) RoundTrip(req *http.Request) (*http.Response, error) {
 	// answers after its simulated latency, or the client gives up first.
 	timeout := int64(1 << 62)
 	if dl, ok := req.Context().Deadline(); ok {
-		timeout = int64(time.Until(dl))
+		// The deadline is wall-clock (set microseconds ago by http.Client):
+		// rounding to whole seconds recovers the configured timeout exactly, so
+		// that no real-clock jitter enters the simulation.
+		timeout = int64(time.Until(dl).Round(time.Second))
 	}
 	if s.slowSecs > 0 {
 		lat := int64(s.slowSecs) * int64(time.Second)
